@@ -48,6 +48,7 @@ func main() {
 	bigw := flag.Int("bigw", 128, "magnitude width of the symbolic math/big.Int model")
 	bigarith := flag.String("bigarith", "", "big.Int Mul/Mod model: empty = bit-vector arithmetic, uf = uninterpreted functions with the contract 0 <= Mod < y")
 	preempt := flag.Int("preempt", 0, "budget of scheduler preemptions per path at synchronisation operations (0 = cooperative only)")
+	hglobals := flag.String("harness-globals", "", "comma-separated package-level variables (of packages whose init is not run) that the harness initialises itself")
 	stopv := flag.Bool("stop-on-violation", false, "stop at the first violation")
 	flag.Parse()
 
@@ -133,26 +134,32 @@ func main() {
 		}
 	}
 	c := &interp.Config{
-		SolverCmd:     strings.Fields(*solver),
-		QueryTimeout:  *qto,
-		MaxDecisions:  *maxDec,
-		MaxPaths:      *maxPaths,
-		MaxEnum:       *maxEnum,
-		Workers:       *workers,
-		NoMerge:       *nomerge,
-		NoANF:         *noanf,
-		ANFCheck:      *anfcheck,
-		InitPkgs:      ip,
-		Redirects:     redirects,
-		SkipFuncs:     skipSet(*skip),
-		BigW:          *bigw,
-		BigArith:      *bigarith,
-		Preempt:       *preempt,
-		Trace:         *trace,
-		StopOnViolate: *stopv,
+		SolverCmd:      strings.Fields(*solver),
+		QueryTimeout:   *qto,
+		MaxDecisions:   *maxDec,
+		MaxPaths:       *maxPaths,
+		MaxEnum:        *maxEnum,
+		Workers:        *workers,
+		NoMerge:        *nomerge,
+		NoANF:          *noanf,
+		ANFCheck:       *anfcheck,
+		InitPkgs:       ip,
+		Redirects:      redirects,
+		SkipFuncs:      skipSet(*skip),
+		BigW:           *bigw,
+		BigArith:       *bigarith,
+		Preempt:        *preempt,
+		HarnessGlobals: map[string]bool{},
+		Trace:          *trace,
+		StopOnViolate:  *stopv,
 	}
 	if *deadline > 0 {
 		c.Deadline = time.Now().Add(*deadline)
+	}
+	for _, g := range strings.Split(*hglobals, ",") {
+		if g != "" {
+			c.HarnessGlobals[g] = true
+		}
 	}
 	res := interp.Explore(prog, hfn, c)
 	type outT struct {
